@@ -150,4 +150,21 @@ CLAIMED["C07"] = {
     "note": COMMON_NOTE + "argparse prefix matching is set aside (the spec is silent on foreign options that abbreviate a registered one).",
     "technique": T,
 }
+CLAIMED["C01"] = {
+    "text": "C01_empty_defaults_partial: for all dataclass trees (induction, no depth bound) and all 144 configurations x both APIs, an empty command line "
+            "delivers at every destination the caller's default instance or what the constructor produces - unconditionally for NONE/EXPLICIT/AUTO "
+            "(C01_empty_defaults_plain_modes, since the fix: commit for Optional members), under a decidable side condition for ALWAYS_MERGE whose excluded "
+            "shapes (partial default instances, mixed depths, merged Optional members) are refuted with witnesses = known findings; lemmas for the three "
+            "default propagation paths, postprocess-of-a-default = identity (falsy values included), bottom-up instantiation.",
+    "note": COMMON_NOTE + "the dataclass constructor is modelled (`construct`); Enum name round trip modelled as identity.",
+    "technique": T,
+}
+CLAIMED["C16"] = {
+    "text": "PARTIAL by design (HelpFormatter layout is not modelled; the help is modelled as groups of entries): C16_complete (entries <-> cmd-exposed init fields in "
+            "declaration order, option strings = the accepted set), C16_hidden_never, C16_default_shown, C16_exit0, C16_reproducible (full since the fix: commit: "
+            "proved from the regenerated fact that duplicates are removed in insertion order), C16_print_help_inert_partial (refuted with config files = known "
+            "finding). The correspondence sweeps PYTHONHASHSEED in fresh interpreters and compares the raw text across seeds.",
+    "note": COMMON_NOTE + "argparse HelpFormatter line wrapping/usage line and the help-text parser of the harness are trusted/sampled.",
+    "technique": T,
+}
 NOT_CLAIMED = {}
